@@ -528,7 +528,10 @@ TRet ==
         /\ minfo' = minfo
      \/ /\ op = "read"
         /\ LET refs == FileRefs(a.f) IN
-           IF Admissible(refs, r)
+           \* (embedded-io: an empty buffer is answered with 0 by the wrapper itself, no call is made - whatever the handle is)
+           IF refs # {} /\ call.api = "eio" /\ a.n = 0 /\ ok
+           THEN /\ UNCHANGED apiVars /\ viol' = Report(StateChecks(op, e.obs, e.fateq))
+           ELSE IF Admissible(refs, r)
            THEN /\ IF ok /\ r.v.cnt >= 0 THEN ReadPost(a.f, r.v.cnt) ELSE UNCHANGED apiVars
                 /\ viol' = Report(StateChecks(op, e.obs, e.fateq)
                      \cup (IF ok /\ ~(r.v.cnt >= 0 /\ r.v.tailok /\ ReadResOK(a.f, a.n, r.v.cnt, r.v.vals))
